@@ -43,6 +43,7 @@ def main():
         if a.tier == 'thorough' and not a.no_selftest and os.environ.get('VERIF_REPO') is None:
             import selftest
             selftest.run_for_property(a.prop, res)
+            selftest.run_transforms_for_property(a.prop, res)
         rc = report.finish(res, mod.EXPLANATION)
     except AnalysisError as e:
         print(f'ANALYSIS-ERROR property={a.prop} {e}')
